@@ -208,7 +208,7 @@ def _work(group):
 
 def _key(case, extra):
     k = {"fn": case["in"]["fn"], "backend": case["in"]["backend"], "regime": case["exp"]["regime"],
-         "product0": case["exp"]["product0"]}
+         "product0": case["exp"]["product0"], "t": str(terms.to_fraction(case["in"]["t"]))}
     k.update(extra)
     return k
 
@@ -289,8 +289,13 @@ def run(ctx):
         reps = [dict(g[0], _g=i) for i, g in enumerate(groups)]
         for r in reps:
             r["cls"] = ":".join(r["cls"].split(":")[:3]) + (":t0" if r["cls"].endswith(":t0") else "")
-        sel = ctx.pick(reps, 200)
+        sel = ctx.pick(reps, 160)
         groups = [groups[r["_g"]] for r in sel]
+    # stiff / late slice (diffusion-limited constants, mM concentrations, 0.5 ms .. 1000 s): always in full
+    res_s = ctx.tlc("Integrated_MC", "Integrated_MC_stiff.cfg", require_cases=100, timeout=600)
+    for c in res_s.cases:
+        c["slice"] = "stiff"
+    groups = groups + _groups(res_s.cases)
     ctx.exhaustive = not ctx.quick
     outs = ctx.pmap(_work, groups)
     for g, (bad, ref) in zip(groups, outs):
@@ -301,7 +306,9 @@ def run(ctx):
             nontriv = c["in"]["t"] != c["in"]["tinit"] or c["exp"]["product0"]
             ctx.ran({"in": c["in"]}, nontrivial=nontriv)
         for c, extra, detail in bad:
-            d = {"direction": "spec->code", "case": c, "tlc_cfg": cfg}
+            d = {"direction": "spec->code", "case": c,
+                 "tlc_cfg": "Integrated_MC_stiff.cfg" if c.get("slice") == "stiff" else cfg}
+            extra = dict(extra, slice=c.get("slice", "grid"))
             d.update(detail)
             ctx.counters["disagree:%s:%s:%s" % (c["in"]["fn"], extra.get("clause"), c["in"]["backend"].split(":")[0])] += 1
             ctx.violation(_key(c, extra), d)
